@@ -16,6 +16,7 @@ CASE_TIMEOUT = {'quick': 300, 'thorough': 900}
 ASSUMPTIONS = ['results are compared through gauge-free functionals (covariance matrices, projectors) with rtol 1e-10 (Bingham: 1e-5, its M-step is a numeric solve)']
 FAMS = ['gauss', 'diag', 'spher', 'ccsg', 'vmf', 'watson', 'cacg', 'bingham']
 CACG_KW = {}
+WATSON_KW = {}
 MIX = ['cacgmm', 'cwmm', 'cbmm', 'gmm', 'vmfmm']
 
 
@@ -51,10 +52,12 @@ def plan(tier, seed):
             if kind == 'gmm':
                 o['covariance_type'] = pick(['full', 'diagonal', 'spherical'])
             N = int(rng.integers(4 * K + D, 8 * K + D + 10)) if kind != 'gmm' else int(rng.integers(6 * K + 2 * D, 10 * K + 2 * D + 10))
+            if kind == 'cwmm' and D <= 6:
+                o['max_concentration'] = pick([500, 600, 700])
             ini = pick(['dirichlet:1', 'blur:0.3', 'singleton', 'singleton-inner'])
             if ini.startswith('singleton'):
                 o.pop('mask', None)      # the trainer validates mask.shape == initialization.shape: explicit exception, not a stacking question
-            cases.append(dict(lane='mixture', kind=kind, cls='gauss', K=K, N=N, D=D, lead=lead, init=ini,
+            cases.append(dict(lane='mixture', kind=kind, cls='gauss', K=K, N=N, D=D, lead=lead, init=ini, layout=pick(['c', 'c', 'tview', 'f']), peaked=bool(rng.uniform() < 0.3),
                               iters=int(pick([1, 2, 3, 5])) if kind != 'cbmm' else 1, opts=o, rs=[seed, 7, i]))
             i += 1
     return cases
@@ -79,7 +82,7 @@ def _fit_fn(fam):
     if fam == 'vmf':
         return lambda y, s: d.VonMisesFisherTrainer().fit(y, saliency=s)
     if fam == 'watson':
-        return lambda y, s: d.ComplexWatsonTrainer().fit(y, saliency=s)
+        return lambda y, s: d.ComplexWatsonTrainer(**WATSON_KW).fit(y, saliency=s)
     if fam == 'cacg':
         return lambda y, s: d.ComplexAngularCentralGaussianTrainer().fit(y, iterations=4, **CACG_KW)
     if fam == 'bingham':
@@ -101,6 +104,15 @@ def run_dist(case, R):
     if fam == 'cacg':
         CACG_KW.update(covariance_norm=[None, 'eigenvalue', 'trace', False][int(rng.integers(1, 4))], eigenvalue_floor=float(rng.choice([1e-10, 0.05, 0.2])))
         y = y * 10 ** rng.uniform(-2, 2, size=(*lead, 1, 1))           # slices with different spectra / scales
+    WATSON_KW.clear()
+    if fam == 'watson':
+        WATSON_KW.update(max_concentration=float(rng.choice([500, 600, 700])) if D <= 6 else 500.0)
+        if lead and rng.uniform() < 0.5:
+            idx0 = (0,) * len(lead)
+            y[idx0] = gen.cnormal(rng, (N, 1)) * gen.cnormal(rng, (1, D)) + 1e-3 * gen.cnormal(rng, (N, D))     # a (nearly) rank-one slice
+    lay = ['c', 'c', 'f', 'tview'][int(rng.integers(0, 4))]
+    if lay != 'c':
+        dd = dict(y=y); scen.relayout(dd, lay); y = dd['y']
     fit = _fit_fn(fam)
     rtol = 1e-5 if fam == 'bingham' else 1e-10
     # per slice -------------------------------------------------------------------------------------------------
@@ -162,6 +174,15 @@ def run_dist(case, R):
 def run_mixture(case, R):
     s = scen.build(case)
     kind, lead = s.kind, s.lead
+    if case.get('peaked') and kind in models.COMPLEX and lead:
+        # one slice is (nearly) rank one: its concentration reaches the clipping bound while the others stay ordinary
+        rr = np.random.default_rng([*case['rs'], 77])
+        idx0 = (0,) * len(lead)
+        v = gen.cnormal(rr, (1, s.D))
+        yy = np.array(s.data['y'])
+        yy[idx0] = gen.cnormal(rr, (s.N, 1)) * v + 1e-3 * gen.cnormal(rr, (s.N, s.D))
+        s.data['y'] = yy
+        scen.relayout(s.data, case.get('layout', 'c'))
     tol = 1e-5 if kind == 'cbmm' else 1e-9
     singleton = case['init'].startswith('singleton')
     if case['init'] == 'singleton-inner' and len(lead) >= 2:
